@@ -35,6 +35,7 @@
 #include <memory>
 #include <algorithm>
 #include <cstring>
+#include <unistd.h>
 
 using namespace mfuse;
 
@@ -320,5 +321,10 @@ int main()
             say("bad-op");
         }
     }
-    return 0;
+    // Leave without running static destructors: a script that builds a cyclic array (a[k] = a) leaks the
+    // holders (reference counts never reach zero) and the static pool's FreeAll() at exit then destroys the
+    // leaked entries recursively through already released slots.  That is a leak / teardown matter outside
+    // C03 (noted in notes/C03-findings.md); everything C03 observes has been printed by now.
+    std::fflush(stdout);
+    std::_Exit(0);
 }
